@@ -136,39 +136,27 @@ Proof.
     assert (Hs1 : drop w rest = drop (i + w) s) by (subst rest; apply st_drop_drop).
     assert (Hs1l : length (drop w rest) = (length s - (i + w))%nat) by (rewrite Hs1; apply st_drop_length).
     (* what a step does on both sides, for a rune value z that the model sees as st_rune z *)
-    assert (Hstep : forall (z : Z) (j : nat),
-               (i + 1 <= j <= length s)%nat ->
-               match unquote_loop mfuel (drop j s) ((st_rune z =? q_backslash) && negb esc)
-                       (if (st_rune z =? q_backslash) && negb esc then acc else st_rune z :: acc) with
-               | Some l => exists esc' res' i',
-                   (let e2 := andb (Z.eqb z 92%Z) (negb esc) in
-                    if negb e2
-                    then src_parse_unquoteString_loop1 fuel st_dec st_pint s e2 (res ++ [z]) (Z.of_nat j)
-                    else src_parse_unquoteString_loop1 fuel st_dec st_pint s e2 res (Z.of_nat j)) =
-                   Some (go_exit (esc', res', i')) /\ map st_rune res' = l
-               | None =>
-                   (let e2 := andb (Z.eqb z 92%Z) (negb esc) in
-                    if negb e2
-                    then src_parse_unquoteString_loop1 fuel st_dec st_pint s e2 (res ++ [z]) (Z.of_nat j)
-                    else src_parse_unquoteString_loop1 fuel st_dec st_pint s e2 res (Z.of_nat j)) = Some (go_ret ([], true))
-               end).
-    { intros z j Hj. cbv zeta.
-      assert (Heq : (st_rune z =? q_backslash) = Z.eqb z 92%Z).
-      { unfold st_rune, q_backslash, rune_error. destruct z; reflexivity. }
-      rewrite Heq. destruct (andb (Z.eqb z 92%Z) (negb esc)) eqn:E2; cbn [negb].
-      - apply (IH j true res acc fuel mfuel); try lia; assumption.
-      - apply (IH j false (res ++ [z]) (st_rune z :: acc) fuel mfuel); try lia.
-        rewrite map_app, Hacc. reflexivity. }
+    (* from here on the cases are split on the MODEL's side; the source's tests (operands in any order) are decided by lia *)
+    assert (Hrune : forall z : Z, (st_rune z =? q_backslash) = Z.eqb z 92%Z).
+    { intros z. unfold st_rune, q_backslash, rune_error. destruct z; reflexivity. }
+    (* a leaf: the new escaping flag is decided on both sides, then the induction hypothesis at the new index *)
+    Ltac st_norm_flag :=
+      repeat match goal with
+             | |- context [src_parse_unquoteString_loop1 _ _ _ _ ?e _ _] =>
+                 lazymatch e with true => fail | false => fail | _ => first [replace e with true by lia | replace e with false by lia] end
+             | |- context [unquote_loop _ _ ?e _] =>
+                 lazymatch e with true => fail | false => fail | _ => first [replace e with true by lia | replace e with false by lia] end
+             end.
     destruct esc.
     + (* inside an escape *)
-      replace (Z.eqb (Z.of_N r) 117%Z) with (r =? 117) by lia.
-      destruct (r =? 117) eqn:Eu.
+      destruct (N.eqb_spec r 117) as [Eu|Eu].
       * (* \uNNNN *)
         rewrite !(go_wrap_s_id 64 (Z.of_nat (i + w) + 4)) by
           first [lia | change (2 ^ (64 - 1))%Z with 9223372036854775808%Z; unfold go_len in *; lia].
         destruct (Nat.ltb_spec (length (drop w rest)) 4) as [Hshort|Hlong].
-        -- replace (Z.gtb _ _) with true by (unfold go_len; lia). reflexivity.
-        -- replace (Z.gtb _ _) with false by (unfold go_len; lia).
+        -- unfold go_len in *. st_decide_ifs. reflexivity.
+        -- assert (Hlong' : (Z.of_nat (i + w) + 4 <= go_len s)%Z) by (unfold go_len; lia).
+           st_decide_ifs.
            replace (Z.of_nat (i + w) + 4)%Z with (Z.of_nat (i + w) + Z.of_nat 4)%Z by lia.
            rewrite st_go_slice_take_drop by lia. cbn [go_bind]. rewrite <- Hs1.
            unfold st_pint. change (Z.to_N 16%Z) with 16.
@@ -176,24 +164,32 @@ Proof.
            assert (Hnum : (-65536 < num < 65536)%Z).
            { apply (st_parse_int_small (take 4 (drop w rest))); [|exact Ep].
              clear. generalize (drop w rest). intros l. destruct l as [|a [|b0 [|c [|d l]]]]; cbn [take length]; lia. }
-           rewrite go_wrap_s_id by (change (2 ^ (32 - 1))%Z with 2147483648%Z; lia).
+           cbv beta iota.
+           rewrite !(go_wrap_s_id 32 num) by (try lia; change (2 ^ (32 - 1))%Z with 2147483648%Z; lia).
            replace (Z.of_nat (i + w) + Z.of_nat 4)%Z with (Z.of_nat (i + w + 4)) by lia.
            rewrite Hs1, st_drop_drop.
            change (match num with Zneg _ => rune_error | _ => Z.to_N num end) with (st_rune num).
-           pose proof (Hstep num (i + w + 4)%nat ltac:(lia)) as H. cbv zeta in H. exact H.
+           rewrite !Hrune. st_norm_flag. st_decide_ifs. cbv beta iota.
+           apply (IH (i + w + 4)%nat false (res ++ [num]) (st_rune num :: acc) fuel mfuel); try lia.
+           rewrite map_app, Hacc. reflexivity.
       * (* a one-letter escape *)
         pose proof (unescape_of_matches_source r) as Hu.
         destruct (unescape_of r) as [repl|].
-        -- injection Hu as Hu1 Hu2. rewrite <- Hu1, <- Hu2. cbn [negb].
-           rewrite Hs1. pose proof (Hstep (Z.of_N repl) (i + w)%nat ltac:(lia)) as H.
-           rewrite !st_rune_of_N in H. cbv zeta in H. exact H.
-        -- injection Hu as Hu1 Hu2. rewrite <- Hu2. cbn [negb].
+        -- injection Hu as Hu1 Hu2. rewrite <- Hu1, <- Hu2. rewrite Hs1.
+           rewrite <- (st_rune_of_N repl), !Hrune, !st_rune_of_N.
+           st_norm_flag. st_decide_ifs. cbv beta iota.
+           apply (IH (i + w)%nat false (res ++ [Z.of_N repl]) (repl :: acc) fuel mfuel); try lia.
+           rewrite map_app, Hacc. cbn [map]. rewrite st_rune_of_N. reflexivity.
+        -- injection Hu as Hu1 Hu2. rewrite <- Hu2. st_decide_ifs. cbv beta iota.
            rewrite (st_wrap64 (Z.of_nat (i + w) - 1)) by (unfold go_len in *; lia).
            destruct (go_slice s (Z.of_nat (i + w) - 1) (Z.of_nat (i + w))) eqn:Esl; [reflexivity|].
            exfalso. unfold go_slice in Esl. replace (orb _ _) with false in Esl by (unfold go_len; lia). discriminate.
-    + (* plain *)
-      rewrite Hs1. pose proof (Hstep (Z.of_N r) (i + w)%nat ltac:(lia)) as H.
-      rewrite !st_rune_of_N in H. cbv zeta in H. exact H.
+    + (* plain: a backslash opens an escape, everything else is kept *)
+      rewrite Hs1. rewrite <- (st_rune_of_N r), !Hrune, !st_rune_of_N.
+      destruct (Z.eqb_spec (Z.of_N r) 92) as [Eb|Eb]; st_norm_flag; st_decide_ifs; cbv beta iota.
+      * apply (IH (i + w)%nat true res acc fuel mfuel); try lia; assumption.
+      * apply (IH (i + w)%nat false (res ++ [Z.of_N r]) (r :: acc) fuel mfuel); try lia.
+        rewrite map_app, Hacc. cbn [map]. rewrite st_rune_of_N. reflexivity.
 Qed.
 
 (* ---- the whole function ---- *)
@@ -227,7 +223,8 @@ Proof.
   intros Hs. unfold src_parse_unquoteString, unquote_string. cbv zeta. unfold st_small in Hs.
   destruct s as [|c0 [|c1 r1]]; [reflexivity|reflexivity|].
   set (r := c1 :: r1) in *. assert (Hr : r <> []) by (unfold r; congruence).
-  replace (Z.ltb (go_len (c0 :: r)) 2) with false by (unfold go_len, r; cbn [length]; lia).
+  assert (Hlen2 : (2 <= go_len (c0 :: r))%Z) by (unfold go_len, r; cbn [length]; lia).
+  st_decide_ifs.
   unfold go_index_b at 1. rewrite go_index_0. cbn [go_bind].
   rewrite st_wrap64 by lia. rewrite st_last_byte_index.
   replace (negb (Z.eqb 39 (Z.of_N c0))) with (negb (c0 =? q_quote)) by (unfold q_quote; lia).
